@@ -23,7 +23,7 @@ def run(chk):
         raise vlib.FrameworkError("optimality criterion disagrees with brute force: %s" % res["violated"])
     chk.add_tlc(res, "tlc unit-move optimality criterion == brute force (all placements of all tiny instances)")
     replay_cases(chk, "RowLegalizer", "RowLegalizer_%s_TRUE" % chk.tier, "all insertion histories in the %s scope" % chk.tier,
-                 workers=16, xmx="24g")
+                 workers=16, xmx="12g")
     plan = [dict(flavour="asan-ubsan", exe="record_algo", module="TraceAlgo", scen="rowhist", runs=(1500, 40000), opts={})]
     run_plan(chk, "C12", plan, nontrivial)
     chk.cov["rule"] = ("exhaustive: every history of insertions (w 1..3, targets in a window around the segment, interleaved cost queries) in the tier's scope "
